@@ -34,8 +34,8 @@ package ntor
 //@   requires labelsOK() && id != nil && b != nil && x != nil && y != nil
 //@   ghost si := secretInput.content
 //@   ensures [C06:ntor_transcript] fresh(keySeed) && fresh(auth) && keySeed != nil && auth != nil && keySeed != auth
-//@   ensures [C06:ntor_key_seed] seq(keySeed) == ntorKeySeed(si, seq(b), seq(x), seq(y), seq(id))
-//@   ensures [C06:ntor_auth] seq(auth) == ntorAuth(si, seq(b), seq(x), seq(y), seq(id))
+//@   ensures [C06,C08,C02:ntor_key_seed] seq(keySeed) == ntorKeySeed(si, seq(b), seq(x), seq(y), seq(id))
+//@   ensures [C06,C08,C02:ntor_auth] seq(auth) == ntorAuth(si, seq(b), seq(x), seq(y), seq(id))
 
 //@ pred kpOK(k) := k != nil && k.public != nil && k.private != nil && k.public != k.private
 
@@ -45,7 +45,7 @@ package ntor
 //@   ghost e1 := X25519(seq(serverKeypair.private), seq(clientPublic))
 //@   ghost e2 := X25519(seq(idKeypair.private), seq(clientPublic))
 //@   ensures [C08:zero_check_server] ok <==> !allzero(e1) && !allzero(e2)
-//@   ensures [C06:exp_order_server] keySeed != nil && auth != nil && fresh(keySeed) && fresh(auth)
+//@   ensures [C06,C08:exp_order_server] keySeed != nil && auth != nil && fresh(keySeed) && fresh(auth)
 //@       && seq(keySeed) == ntorKeySeed(cat(e1, e2), seq(idKeypair.public), seq(clientPublic), seq(serverKeypair.public), seq(id))
 //@       && seq(auth) == ntorAuth(cat(e1, e2), seq(idKeypair.public), seq(clientPublic), seq(serverKeypair.public), seq(id))
 
@@ -55,7 +55,7 @@ package ntor
 //@   ghost e1 := X25519(seq(clientKeypair.private), seq(serverPublic))
 //@   ghost e2 := X25519(seq(clientKeypair.private), seq(idPublic))
 //@   ensures [C08:zero_check_client] ok <==> !allzero(e1) && !allzero(e2)
-//@   ensures [C06:exp_order_client] keySeed != nil && auth != nil && fresh(keySeed) && fresh(auth)
+//@   ensures [C06,C08,C02:exp_order_client] keySeed != nil && auth != nil && fresh(keySeed) && fresh(auth)
 //@       && seq(keySeed) == ntorKeySeed(cat(e1, e2), seq(idPublic), seq(clientKeypair.public), seq(serverPublic), seq(id))
 //@       && seq(auth) == ntorAuth(cat(e1, e2), seq(idPublic), seq(clientKeypair.public), seq(serverPublic), seq(id))
 
